@@ -2,6 +2,7 @@
 package c19
 
 import (
+	"bytes"
 	"context"
 	"encoding/json"
 	"fmt"
@@ -15,6 +16,7 @@ import (
 
 	"github.com/enfein/mieru/v3/pkg/appctl/appctlpb"
 	"github.com/enfein/mieru/v3/pkg/common"
+	"github.com/enfein/mieru/v3/pkg/log"
 	"github.com/enfein/mieru/v3/pkg/metrics"
 	pb "github.com/enfein/mieru/v3/pkg/metrics/metricspb"
 	"github.com/enfein/mieru/v3/pkg/protocol"
@@ -308,4 +310,129 @@ type nilResolver struct{}
 
 func (nilResolver) LookupIP(ctx context.Context, network, host string) ([]net.IP, error) {
 	return []net.IP{net.ParseIP(host)}, nil
+}
+
+type slowSink struct{}
+
+func (slowSink) Write(p []byte) (int, error) {
+	if bytes.Contains(p, []byte("quota")) {
+		time.Sleep(30 * time.Millisecond)
+	}
+	return len(p), nil
+}
+
+// TestQuotaRace opens sessions of a user who is over the allowance, in real time, while the server application reads
+// each accepted session as eagerly as it can, and the server's log sink is slow: the refusal races with the application's Read.
+func TestQuotaRace(t *testing.T) {
+	out := vt.MustCreate(t, "VERIF_OUT")
+	defer out.Close()
+	// a slow log sink: the server logs the refusal at debug level while it is refusing
+	log.SetLevel("DEBUG")
+	log.SetOutput(slowSink{})
+	defer log.SetLevel("INFO")
+	defer log.SetOutput(io.Discard)
+	trials := vt.EnvInt("VERIF_N", 150)
+	for _, tr := range []string{"tcp", "udp"} {
+		me := fmt.Sprintf("c19r%d_%s", vt.Seed(), tr)
+		quota := []*appctlpb.Quota{{Days: proto.Int32(1), Megabytes: proto.Int32(1)}}
+		users := map[string]*appctlpb.User{me: {Name: proto.String(me), Password: proto.String(pass), Quotas: quota}}
+		up := metrics.RegisterMetric(fmt.Sprintf(metrics.UserMetricGroupFormat, me), metrics.UserMetricUploadBytes, metrics.COUNTER_TIME_SERIES)
+		down := metrics.RegisterMetric(fmt.Sprintf(metrics.UserMetricGroupFormat, me), metrics.UserMetricDownloadBytes, metrics.COUNTER_TIME_SERIES)
+		const bytesUsed = 3 * 1048576
+		up.Add(bytesUsed / 2)
+		down.Add(bytesUsed / 2)
+		time.Sleep(2 * time.Second)
+
+		pnet, snet := simnet.NewPacketNet(), simnet.NewStreamNet()
+		smux := protocol.NewMux(false)
+		smux.SetServerUsers(users)
+		cmux := protocol.NewMux(true)
+		cmux.SetClientUserNamePassword(me, refcodec.HashedPassword(me, pass))
+		cmux.SetResolver(nilResolver{})
+		cmux.SetClientMultiplexFactor(1000)
+		var addr net.Addr
+		if tr == "udp" {
+			addr = &net.UDPAddr{IP: net.IPv4(10, 1, 0, 1), Port: 7000}
+			smux.SetPacketListenerFactory(pnet)
+			smux.SetEndpoints([]protocol.UnderlayProperties{protocol.NewUnderlayProperties(1400, common.PacketTransport, addr, nil)})
+			cmux.SetPacketDialer(pnet.Dialer("10.2.0.1"))
+			cmux.SetEndpoints([]protocol.UnderlayProperties{protocol.NewUnderlayProperties(1400, common.PacketTransport, nil, addr)})
+		} else {
+			addr = &net.TCPAddr{IP: net.IPv4(10, 1, 0, 1), Port: 7000}
+			smux.SetStreamListenerFactory(snet)
+			smux.SetEndpoints([]protocol.UnderlayProperties{protocol.NewUnderlayProperties(1400, common.StreamTransport, addr, nil)})
+			cmux.SetDialer(snet.Dialer("10.2.0.1"))
+			cmux.SetEndpoints([]protocol.UnderlayProperties{protocol.NewUnderlayProperties(1400, common.StreamTransport, nil, addr)})
+		}
+		if err := smux.Start(); err != nil {
+			t.Fatalf("start: %v", err)
+		}
+		var mu sync.Mutex
+		relayed := 0
+		go func() {
+			for {
+				c, err := smux.Accept()
+				if err != nil {
+					return
+				}
+				go func() {
+					buf := make([]byte, 4096)
+					for {
+						n, err := c.Read(buf)
+						mu.Lock()
+						relayed += n
+						mu.Unlock()
+						if n > 0 {
+							c.Write(buf[:n])
+						}
+						if err != nil {
+							c.Close()
+							return
+						}
+					}
+				}()
+			}
+		}()
+		for i := 0; i < trials; i++ {
+			mu.Lock()
+			relayed = 0
+			mu.Unlock()
+			rec := map[string]any{"ev": "quota", "kind": "quota", "a": 1, "used": 12, "mib": 4, "admit": false, "transport": tr + "+race",
+				"echoed": 0, "relayed": 0, "err": "", "bytes": bytesUsed, "upcount": 0, "downcount": 0, "trial": i}
+			ctx, cancel := context.WithTimeout(context.Background(), 5*time.Second)
+			conn, err := cmux.DialContext(ctx)
+			cancel()
+			if err != nil {
+				rec["err"] = "dial: " + err.Error()
+			} else {
+				msg := make([]byte, 700)
+				conn.Write(msg)
+				got := 0
+				buf := make([]byte, 4096)
+				conn.SetReadDeadline(time.Now().Add(3 * time.Second))
+				for got < len(msg) {
+					n, err := conn.Read(buf)
+					got += n
+					if err != nil {
+						if err != io.EOF {
+							rec["err"] = "read: " + err.Error()
+						} else {
+							rec["err"] = "EOF"
+						}
+						break
+					}
+				}
+				rec["echoed"] = got
+				conn.Close()
+			}
+			time.Sleep(20 * time.Millisecond)
+			mu.Lock()
+			rec["relayed"] = relayed
+			rec["upcount"] = relayed // per-session counting is the business of TestQuota; this driver looks at the race only
+			mu.Unlock()
+			out.Emit(rec)
+		}
+		cmux.Close()
+		smux.Close()
+	}
 }
